@@ -555,6 +555,12 @@ func (x *CommonLex) ConstructToken(
 					tokenName))
 				break
 			}
+			if c == xutils.ERR {
+				// Invalid UTF-8 is never part of a token, even if the
+				// matcher (eg for a literal) takes any character.
+				x.SetError(fmt.Errorf("Invalid UTF-8 input"))
+				break
+			}
 			add(&b, c)
 		} else {
 			break
